@@ -327,6 +327,12 @@ def run(ctx, rule, roots, label, exclude_prefix=()):
                 # the construct moved into a closure of the function the entry names (`x.and_then(|c| c[2]..)`): same
                 # construct, its side condition is re-checked in the closure
                 cands = [k for k in by_base.get(base(s.key).replace("::{closure}", ""), []) if k not in used_t3]
+            if not exact and not cands and "Index<RangeTo<usize>>>::index" in s.key:
+                # `s[..n]` written for `s[0..n]`: the same slice; the reviewed entry of the `0..n` form covers it
+                alt_ = base(s.key).replace("Index<RangeTo<usize>>>::index", "Index<Range<usize>>>::index")
+                for k_ in by_base.get(alt_, []):
+                    if k_ not in used_t3 and "[0.." in str(t3.get(k_, {}).get("reason", "")):
+                        cands.append(k_)
             if not exact and not cands and "|assert:overflow_neg|overflow_neg" in s.key:
                 # `-(d.as_secs() as i64)` written for `d.as_secs() as i64 * -1`: the same value, overflowing for the same single
                 # operand (i64::MIN); the reviewed entry of the multiplication covers it when the operand is that cast
